@@ -94,8 +94,11 @@ theorem perform_closed {cfg : Cfg} {w w' : World} {t : Task} (h : perform cfg w 
             rw [hd']; exact set_mkdir_closed hm hc hnd
           split at h
           · split at h
-            · obtain ⟨d, fm, hm, hnone, _, hd', _⟩ := linkFile_spec h
-              rw [hd']; exact set_mkdir_closed hm hc (by rw [hnone]; simp)
+            · split at h
+              · obtain ⟨d, fm, hm, hnone, _, hd', _⟩ := linkFile_spec h
+                rw [hd']; exact set_mkdir_closed hm hc (by rw [hnone]; simp)
+              · obtain ⟨d, fm, hm, hnd, _, hd', _⟩ := relinkFile_spec h
+                rw [hd']; exact set_mkdir_closed hm hc hnd
             · cases h1 : writeFile cfg w t.rel m with
               | none => simp [h1] at h
               | some w1 =>
@@ -203,10 +206,48 @@ theorem planFileAct_file_cases (cfg : Cfg) (m d : FileMeta) :
   · split <;> simp
   · split <;> simp
 
+/-- re-linking a path that already is a name of the first member's node changes no `get?` -/
+theorem relinkFile_same {w : World} {p first : Path} {d : FileMeta}
+    (hg : w.dst.get? p = some (.file d))
+    (hanc : ∀ x, x ≠ [] → isPrefix x p = true → x ≠ p → w.dst.get? x = some .dir)
+    (hf : w.dst.get? first = some (.file d)) :
+    ∃ w', relinkFile w p first = some w' ∧ (∀ q, w'.dst.get? q = w.dst.get? q) ∧ w'.linkMap = w.linkMap := by
+  have hmk : mkdirAll w.dst (parentOf p) = some w.dst := by
+    apply mkdirAll_of_dirs
+    intro x hx hpx
+    apply hanc x hx (isPrefix_trans hpx (parentOf_isPrefix p))
+    intro he; subst he
+    have h1 := isPrefix_length hpx
+    have : x.length ≠ 0 := fun h0 => hx (List.eq_nil_of_length_eq_zero h0)
+    simp [parentOf] at h1; omega
+  unfold relinkFile
+  simp only [hmk, hg, hf]
+  refine ⟨_, rfl, fun q => ?_, rfl⟩
+  simp only [Map.get?_set]
+  split
+  · rename_i h; subst h; exact hg.symm
+  · rfl
+
+/-- what the link map of a re-run holds: destination paths of selected `-H` group members that
+    the first run transferred -/
+def RelinkInv (cfg : Cfg) (scan : List SEntry) (dst : Map DNode) (L : List (Nat × Path × Nat)) : Prop :=
+  ∀ y ∈ L, ∃ e' ∈ scanFilter cfg scan, ∃ m' n', e'.kind = .file m' n' ∧ 1 < n' ∧ m'.ino = y.1 ∧
+    e'.rel = y.2.1 ∧ planFileAct cfg m' (dst.get? e'.rel) ≠ .skip
+
+/-- in `d1` the transferred members of one source inode are names of one node -/
+def Shared (cfg : Cfg) (scan : List SEntry) (dst d1 : Map DNode) : Prop :=
+  ∀ e ∈ scanFilter cfg scan, ∀ e' ∈ scanFilter cfg scan, ∀ m k m' k', e.kind = .file m k →
+    e'.kind = .file m' k' → 1 < k → 1 < k' → m.ino = m'.ino →
+    planFileAct cfg m (dst.get? e.rel) ≠ .skip → planFileAct cfg m' (dst.get? e'.rel) ≠ .skip →
+    d1.get? e.rel = d1.get? e'.rel
+
 theorem rerun_task_pointwise {cfg : Cfg} (hdry : cfg.dryRun = false) {scan : List SEntry} {dst d1 : Map DNode}
-    {e : SEntry} (ep : EntryPost cfg scan dst e (d1.get? e.rel)) (hne : e.kind = .dir → e.rel ≠ [])
-    (hc : GClosed d1) (st : Exec) (hpt : ∀ p, st.w.dst.get? p = d1.get? p) :
+    {e : SEntry} (he : e ∈ scanFilter cfg scan) (ep : EntryPost cfg scan dst e (d1.get? e.rel))
+    (hne : e.kind = .dir → e.rel ≠ [])
+    (hc : GClosed d1) (hsh : cfg.hardlinks = true → Shared cfg scan dst d1)
+    (st : Exec) (hpt : ∀ p, st.w.dst.get? p = d1.get? p) (hL : RelinkInv cfg scan dst st.w.linkMap) :
     (∀ p, (execTask cfg noFaults st (planEntry cfg d1 e)).w.dst.get? p = d1.get? p) ∧
+    RelinkInv cfg scan dst (execTask cfg noFaults st (planEntry cfg d1 e)).w.linkMap ∧
     (execTask cfg noFaults st (planEntry cfg d1 e)).b.errors = st.b.errors ∧
     (execTask cfg noFaults st (planEntry cfg d1 e)).b.created = st.b.created ∧
     (execTask cfg noFaults st (planEntry cfg d1 e)).b.deleted = st.b.deleted := by
@@ -217,56 +258,89 @@ theorem rerun_task_pointwise {cfg : Cfg} (hdry : cfg.dryRun = false) {scan : Lis
       · rw [perform_skip hs] at hp; cases hp; exact he
       · rw [perform_skip hs] at hp; cases hp
     rw [hstep]
-    refine ⟨hpt, Book.ok_errors _ _, ?_, ?_⟩ <;> (unfold Book.ok; rw [hs])
+    refine ⟨hpt, hL, Book.ok_errors _ _, ?_, ?_⟩ <;> (unfold Book.ok; rw [hs])
   · -- only a regular file (or followed link) can be re-planned as non-skip
     have key : ∃ m n, planEntry cfg d1 e = ⟨planFileAct cfg m (d1.get? e.rel), e.rel, .file m n⟩ ∧
-        FilePost cfg dst e m (d1.get? e.rel) := by
+        FilePost cfg dst e m (d1.get? e.rel) ∧ (e.kind = .file m n ∨ n = 1) := by
       cases hk : e.kind with
-      | file m k => exact ⟨m, k, by unfold planEntry; simp [hk], ep.file m k hk⟩
+      | file m k => exact ⟨m, k, by unfold planEntry; simp [hk], ep.file m k hk, Or.inl rfl⟩
       | dir =>
         exfalso; apply hs
         exact planEntry_skip_of_entryPost_nonfile hne (by simp [hk]) (by simp [hk]) ep
       | symlink text tgt =>
         by_cases hf : cfg.links = .follow ∧ ∃ m, tgt = .file m
         · obtain ⟨hl, m, rfl⟩ := hf
-          exact ⟨m, 1, by unfold planEntry; simp [hk, hl], ep.link_follow text m hk hl⟩
+          exact ⟨m, 1, by unfold planEntry; simp [hk, hl], ep.link_follow text m hk hl, Or.inr rfl⟩
         · exfalso; apply hs
           apply planEntry_skip_of_entryPost_nonfile hne (by simp [hk]) _ ep
           intro text' m' hk' hl
           rw [hk] at hk'
           simp only [SKind.symlink.injEq] at hk'
           exact hf ⟨hl, m', hk'.2⟩
-    obtain ⟨m, n, hpe, d, hd1, hskip, hmat, _⟩ := key
+    obtain ⟨m, n, hpe, ⟨d, hd1, hskip, hmat, _⟩, hkind⟩ := key
     have hact : planFileAct cfg m (d1.get? e.rel) = .update := by
       rw [hpe] at hs
       rw [hd1] at hs ⊢
       rcases planFileAct_file_cases cfg m d with h | h
       · exact absurd h hs
       · exact h
-    have hmatch : Matches cfg d m := by
-      apply hmat
+    have hns1 : planFileAct cfg m (dst.get? e.rel) ≠ .skip := by
       intro hsk
       rw [hpe] at hs
       apply hs
       show planFileAct cfg m (d1.get? e.rel) = .skip
       rw [hskip hsk]; exact hsk
-    obtain ⟨w', hw, hget, _⟩ := writeFile_rewrite (cfg := cfg) (w := st.w) (p := e.rel) (m := m) (d := d)
-      (by rw [hpt]; exact hd1)
-      (fun x hx hpx hxe => by rw [hpt]; exact hc e.rel (by rw [hd1]; simp) x hx hpx hxe) hmatch
-    have hperf : perform cfg st.w (planEntry cfg d1 e) = some w' := by
+    have hmatch : Matches cfg d m := hmat hns1
+    have hgst : st.w.dst.get? e.rel = some (.file d) := by rw [hpt]; exact hd1
+    have hancst : ∀ x, x ≠ [] → isPrefix x e.rel = true → x ≠ e.rel → st.w.dst.get? x = some .dir :=
+      fun x hx hpx hxe => by rw [hpt]; exact hc e.rel (by rw [hd1]; simp) x hx hpx hxe
+    obtain ⟨w', hw, hget, hlm⟩ := writeFile_rewrite (cfg := cfg) (w := st.w) (p := e.rel) (m := m) (d := d)
+      hgst hancst hmatch
+    -- the three ways the update is carried out
+    have hperf : ∃ w'', perform cfg st.w (planEntry cfg d1 e) = some w'' ∧
+        (∀ q, w''.dst.get? q = st.w.dst.get? q) ∧ RelinkInv cfg scan dst w''.linkMap := by
       rw [perform_cu hs (planEntry_act_ne_delete _ _ _) hdry]
       unfold performCU
       rw [hpe]
       simp only [hact]
-      simpa using hw
-    have hstep : execTask cfg noFaults st (planEntry cfg d1 e) = ⟨w', st.b.ok (planEntry cfg d1 e)⟩ := by
-      rcases execTask_cases cfg noFaults st (planEntry cfg d1 e) with ⟨g, hf, _⟩ | ⟨_, w'', hp, he⟩ | ⟨_, hp, _⟩
+      by_cases hb : cfg.hardlinks = true ∧ 1 < n
+      · rw [if_pos (by simp [hb.1, hb.2])]
+        cases hfind : st.w.linkMap.find? (·.1 == m.ino) with
+        | none =>
+          simp only [hw, Option.map_some]
+          refine ⟨_, rfl, hget, ?_⟩
+          intro y hy
+          simp only at hy
+          rw [hlm] at hy
+          rcases List.mem_cons.1 hy with rfl | hy
+          · rcases hkind with hk | h1
+            · exact ⟨e, he, m, n, hk, hb.2, rfl, rfl, hns1⟩
+            · omega
+          · exact hL y hy
+        | some y =>
+          obtain ⟨i, first, j⟩ := y
+          simp only [reduceCtorEq, ↓reduceIte]
+          obtain ⟨e', he', m', n', hk', hn', hi', hr', hs'⟩ := hL _ (List.mem_of_find?_eq_some hfind)
+          have hyi : i = m.ino := by have := List.find?_some hfind; simpa using this
+          rcases hkind with hk | h1
+          · have hshare := hsh hb.1 e he e' he' m n m' n' hk hk' hb.2 hn' (by rw [hi']; exact hyi.symm) hns1 hs'
+            simp only at hr'
+            have hfirst : st.w.dst.get? first = some (.file d) := by
+              rw [hpt, ← hr', ← hshare]; exact hd1
+            obtain ⟨w2, h2, g2, l2⟩ := relinkFile_same hgst hancst hfirst
+            exact ⟨w2, h2, g2, by rw [l2]; exact hL⟩
+          · omega
+      · rw [if_neg (by intro h; simp at h; exact hb h)]
+        exact ⟨w', hw, hget, by rw [hlm]; exact hL⟩
+    obtain ⟨w'', hperf, hget'', hL''⟩ := hperf
+    have hstep : execTask cfg noFaults st (planEntry cfg d1 e) = ⟨w'', st.b.ok (planEntry cfg d1 e)⟩ := by
+      rcases execTask_cases cfg noFaults st (planEntry cfg d1 e) with ⟨g, hf, _⟩ | ⟨_, w3, hp, he⟩ | ⟨_, hp, _⟩
       · rw [faultOf_noFaults] at hf; cases hf
       · rw [hperf] at hp; cases hp; exact he
       · rw [hperf] at hp; cases hp
     rw [hstep]
     have hau : (planEntry cfg d1 e).act = .update := by rw [hpe]; exact hact
-    refine ⟨fun p => (hget p).trans (hpt p), Book.ok_errors _ _, ?_, ?_⟩ <;> (unfold Book.ok; rw [hau])
+    refine ⟨fun p => (hget'' p).trans (hpt p), hL'', Book.ok_errors _ _, ?_, ?_⟩ <;> (unfold Book.ok; rw [hau])
 
 /-- **re-run, any comparison mode (including `--ignore-times`)**: on the result of a clean run
     over a parent-closed destination, the second run leaves the node at every path as it is
@@ -291,25 +365,33 @@ theorem rerun_content_unchanged {cfg : Cfg} (hdry : cfg.dryRun = false) {scan : 
     · simp only [hd, ↓reduceIte]
       rw [no_deletions_after_clean_run hdry hd (hdel hd).1 hok]; simp
     · simp [hd]
+  -- `-H`: transferred members of one inode share their node after the first run
+  have hsh : cfg.hardlinks = true → Shared cfg scan dst (runF cfg noFaults scan dst n).dst := by
+    intro hhl e he e' he' m k m' k' hk hk' h1 h1' hi hs hs'
+    rw [(runF_of_not_refused (runF_exit_zero hok).1).1]
+    exact run_share hdry noFaults scan dst n hu hdel hhl hk hk' h1 h1' hi hs hs'
+      (taskOk_of_exit_zero hok (planEntry_mem_plan he)) (taskOk_of_exit_zero hok (planEntry_mem_plan he'))
   -- the invariant over the entry tasks
   have inv : ∀ (es : List SEntry), (∀ e ∈ es, e ∈ scanFilter cfg scan) → ∀ st : Exec,
       (∀ p, st.w.dst.get? p = (runF cfg noFaults scan dst n).dst.get? p) →
+      RelinkInv cfg scan dst st.w.linkMap →
       let fin := (es.map (planEntry cfg (runF cfg noFaults scan dst n).dst)).foldl (execTask cfg noFaults) st
       (∀ p, fin.w.dst.get? p = (runF cfg noFaults scan dst n).dst.get? p) ∧
         fin.b.errors = st.b.errors ∧ fin.b.created = st.b.created ∧ fin.b.deleted = st.b.deleted := by
     intro es
     induction es with
-    | nil => intro _ st hpt; exact ⟨hpt, rfl, rfl, rfl⟩
+    | nil => intro _ st hpt _; exact ⟨hpt, rfl, rfl, rfl⟩
     | cons e es ih =>
-      intro hes st hpt
+      intro hes st hpt hL
       simp only [List.map_cons, List.foldl_cons]
       have he := hes e (List.mem_cons_self ..)
       have ep := entryPost_of_exit_zero hdry noFaults scan dst n hu hdel hino he hok
-      obtain ⟨a, b, c, d⟩ := rerun_task_pointwise hdry ep (fun _ => hnr e (mem_of_mem_scanFilter he)) hc1 st hpt
-      obtain ⟨a', b', c', d'⟩ := ih (fun e' he' => hes e' (List.mem_cons_of_mem _ he')) _ a
+      obtain ⟨a, l, b, c, d⟩ := rerun_task_pointwise hdry he ep (fun _ => hnr e (mem_of_mem_scanFilter he)) hc1 hsh
+        st hpt hL
+      obtain ⟨a', b', c', d'⟩ := ih (fun e' he' => hes e' (List.mem_cons_of_mem _ he')) _ a l
       exact ⟨a', b'.trans b, c'.trans c, d'.trans d⟩
   obtain ⟨i1, i2, i3, i4⟩ := inv (scanFilter cfg scan) (fun _ h => h)
-    (initExec (runF cfg noFaults scan dst n).dst n') (fun _ => rfl)
+    (initExec (runF cfg noFaults scan dst n).dst n') (fun _ => rfl) (fun y hy => by cases hy)
   have hdels : (plan cfg scan (runF cfg noFaults scan dst n).dst).filter (·.act == .delete) = [] := by
     rw [List.filter_eq_nil_iff, hplan]
     intro t ht
